@@ -132,43 +132,50 @@ def summaryWindow (civil : Civil) (offNs : Int) : Int × Int :=
   let b := Date.instant civil - offNs
   (b, b + Date.nsPerDay - 1)
 
-/-- `options.Load` followed by the command's own argument handling -/
-def load (s : Settings) : Except LoadErr Loaded := do
-  -- configuration file
-  if !s.cfgExists && isSet s.gConfig s.eConfig then throw .configMissing
-  let cfg {α : Type} (v : Option α) : Option α := if s.cfgExists then v else none
-  -- a zero value in the file counts as unset
-  let cDb := (cfg s.cDb).bind (fun v => if v.isEmpty then none else some v)
-  let cLog := (cfg s.cLog).bind (fun v => if v.isEmpty then none else some v)
-  let cFmt := (cfg s.cDateFormat).bind (fun v => if v.isEmpty then none else some v)
-  let cDepth := (cfg s.cMaxDepth).bind (fun v => if v == 0 then none else some v)
-  let dbFile := if s.gNoDatabase then devNull else pick s.gDatabase s.eDatabase cDb defaultDb
-  let logFile := pick s.gLogfile s.eLogfile cLog defaultLog
-  let fmtRaw := pick s.gDateFormat s.eDateFormat cFmt defaultLayout
-  let layout ← match Date.parseLayout fmtRaw with
-    | some l => pure l
-    | none => throw .badLayout
-  let now ← match s.gToday with
-    | some t => match Date.parse layout t with
-      | some c => pure (Date.instant c)
-      | none => throw .badToday
-    | none => pure (match cfg s.cNow with | some n => n | none => s.clock)
-  let maxDepth := pick s.gMaxdepth s.eMaxdepth cDepth defaultMaxDepth
-  -- populateFilter: root context first, then the sub-command; the innermost setting wins
-  let gb ← optBind s.gBegin (timeFromString now layout)
-  let sb ← optBind s.sBegin (timeFromString now layout)
-  let ge ← optBind s.gEnd (timeFromString now layout)
-  let se ← optBind s.sEnd (timeFromString now layout)
-  let begin_ := innermost gb sb
-  let end_ := innermost ge se
-  -- validateOptions
-  if maxDepth > maxAllowedDepth then throw .badDepth
-  -- `reg -f PATTERN` is a regular expression; only patterns without metacharacters are modelled
-  match s.sSingleFood with
-    | some pat => if pat.any (fun c => (ofString "\\.+*?()|[]{}^$").contains c) then throw .badCommand else pure ()
-    | none => pure ()
-  let rc : RCfg := {
-    color := !(s.gNoColor || s.sNoColor)
+/-- the settings that have a flag, an environment variable, a configuration entry and a default -/
+structure Effective where
+  dbFile : Bytes
+  logFile : Bytes
+  fmtRaw : Bytes
+  maxDepth : Int
+  deriving Repr
+
+/-- an entry of the configuration file counts only if the file exists (was loaded) -/
+def cfgEntry {α} (s : Settings) (v : Option α) : Option α := if s.cfgExists then v else none
+
+/-- a zero value in the file counts as unset (`if c.IsSet(x) || value == zero`) -/
+def nonEmpty (v : Option Bytes) : Option Bytes := v.bind (fun x => if x.isEmpty then none else some x)
+def nonZero (v : Option Int) : Option Int := v.bind (fun x => if x == 0 then none else some x)
+
+/-- populateGlobals / populateResolver: flag > environment > configuration file > default; --no-database
+    points the book at the null device -/
+def effective (s : Settings) : Effective :=
+  { dbFile := if s.gNoDatabase then devNull else pick s.gDatabase s.eDatabase (nonEmpty (cfgEntry s s.cDb)) defaultDb
+    logFile := pick s.gLogfile s.eLogfile (nonEmpty (cfgEntry s s.cLog)) defaultLog
+    fmtRaw := pick s.gDateFormat s.eDateFormat (nonEmpty (cfgEntry s s.cDateFormat)) defaultLayout
+    maxDepth := pick s.gMaxdepth s.eMaxdepth (nonZero (cfgEntry s s.cMaxDepth)) defaultMaxDepth }
+
+/-- the current date: --today (read in the effective date format), else `Now` of the configuration file, else the clock -/
+def nowOf (s : Settings) (layout : Layout) : Except LoadErr Int :=
+  match s.gToday with
+  | some t => match Date.parse layout t with
+    | some c => .ok (Date.instant c)
+    | none => .error .badToday
+  | none => .ok (match cfgEntry s s.cNow with | some n => n | none => s.clock)
+
+/-- populateFilter: root context first, then the sub-command; every value that is set must be understood -/
+def boundsOf (s : Settings) (now : Int) (layout : Layout) : Except LoadErr (Option Int × Option Int) :=
+  match optBind s.gBegin (timeFromString now layout), optBind s.sBegin (timeFromString now layout),
+        optBind s.gEnd (timeFromString now layout), optBind s.sEnd (timeFromString now layout) with
+  | .ok gb, .ok sb, .ok ge, .ok se => .ok (innermost gb sb, innermost ge se)
+  | .error e, _, _, _ => .error e
+  | _, .error e, _, _ => .error e
+  | _, _, .error e, _ => .error e
+  | _, _, _, .error e => .error e
+
+/-- populateReporter -/
+def rcOf (s : Settings) (layout : Layout) : RCfg :=
+  { color := !(s.gNoColor || s.sNoColor)
     totals := !s.sNoTotals
     totalsOnly := s.sTotalsOnly
     shorten := s.sShorten
@@ -181,37 +188,69 @@ def load (s : Settings) : Except LoadErr Loaded := do
     singleElement := s.sSingleElement.getD []
     singleFood := s.sSingleFood.getD []
     dateLayout := layout }
-  let opts : Opts := { dbFile, logFile, layout, maxDepth, begin_, end_, now, rc }
+
+/-- validateOptions, and the limits of the model (`reg -f PATTERN` is a regular expression: only patterns
+    without metacharacters are modelled) -/
+def validate (s : Settings) (eff : Effective) : Except LoadErr Unit :=
+  if eff.maxDepth > maxAllowedDepth then .error .badDepth
+  else match s.sSingleFood with
+    | some pat => if pat.any (fun c => (ofString "\\.+*?()|[]{}^$").contains c) then .error .badCommand else .ok ()
+    | none => .ok ()
+
+/-- the command and its own arguments -/
+def cmdOf (s : Settings) (now : Int) (layout : Layout) : Except LoadErr Cmd :=
   let str (x : String) := ofString x
-  let cmd ← match s.cmd with
-    | [c] =>
-      if c == str "reg" then pure Cmd.reg
-      else if c == str "bal" then pure Cmd.bal
-      else if c == str "stats" then pure Cmd.stats
-      else if c == str "print" then pure Cmd.print
-      else throw .badCommand
-    | [c, a] =>
-      if c == str "summary" then do
-        let t ← timeFromString now layout a
+  match s.cmd with
+  | [c] =>
+    if c == str "reg" then .ok Cmd.reg
+    else if c == str "bal" then .ok Cmd.bal
+    else if c == str "stats" then .ok Cmd.stats
+    else if c == str "print" then .ok Cmd.print
+    else .error .badCommand
+  | [c, a] =>
+    if c == str "summary" then
+      match timeFromString now layout a with
+      | .error e => .error e
+      | .ok t =>
         -- Year/Month/Day are read in the location of `t`: the process zone for `today`, UTC otherwise
-        let viaLocal := a == kwToday
-        let off : Int := if viaLocal then s.tzOffset * 1000000000 else 0
-        let civil := Date.ofDays (floorDiv (t + off) Date.nsPerDay)
-        let w := summaryWindow civil off
-        pure (Cmd.summary w.1 w.2)
-      else if c == str "lint" then pure (Cmd.lint a s.sSilent)
-      else if c == str "report" && a == str "unresolved" then pure Cmd.reportUnresolved
-      else if c == str "report" && a == str "quantity" then pure (Cmd.reportQuantity s.sDesc)
-      else if c == str "report" && a == str "totals" then pure Cmd.reportTotals
-      else if c == str "csv" && a == str "log" then pure Cmd.csvLog
-      else if c == str "csv" && a == str "database" then pure Cmd.csvDatabase
-      else if c == str "csv" && a == str "database-resolved" then pure Cmd.csvDatabaseResolved
-      else throw .badCommand
-    | [c, a, x] =>
-      if c == str "report" && a == str "element-total" then pure (Cmd.reportElementTotal x s.sDesc)
-      else throw .badCommand
-    | _ => throw .badCommand
-  pure { opts, cmd }
+        let off : Int := if a == kwToday then s.tzOffset * 1000000000 else 0
+        let w := summaryWindow (Date.ofDays (floorDiv (t + off) Date.nsPerDay)) off
+        .ok (Cmd.summary w.1 w.2)
+    else if c == str "lint" then .ok (Cmd.lint a s.sSilent)
+    else if c == str "report" && a == str "unresolved" then .ok Cmd.reportUnresolved
+    else if c == str "report" && a == str "quantity" then .ok (Cmd.reportQuantity s.sDesc)
+    else if c == str "report" && a == str "totals" then .ok Cmd.reportTotals
+    else if c == str "csv" && a == str "log" then .ok Cmd.csvLog
+    else if c == str "csv" && a == str "database" then .ok Cmd.csvDatabase
+    else if c == str "csv" && a == str "database-resolved" then .ok Cmd.csvDatabaseResolved
+    else .error .badCommand
+  | [c, a, x] =>
+    if c == str "report" && a == str "element-total" then .ok (Cmd.reportElementTotal x s.sDesc)
+    else .error .badCommand
+  | _ => .error .badCommand
+
+/-- `options.Load` followed by the command's own argument handling -/
+def load (s : Settings) : Except LoadErr Loaded :=
+  -- an explicitly named configuration file must exist
+  if !s.cfgExists && isSet s.gConfig s.eConfig then .error .configMissing else
+  match Date.parseLayout (effective s).fmtRaw with
+  | none => .error .badLayout
+  | some layout =>
+    match nowOf s layout with
+    | .error e => .error e
+    | .ok now =>
+      match boundsOf s now layout with
+      | .error e => .error e
+      | .ok bnd =>
+        match validate s (effective s) with
+        | .error e => .error e
+        | .ok _ =>
+          match cmdOf s now layout with
+          | .error e => .error e
+          | .ok cmd =>
+            .ok { opts := { dbFile := (effective s).dbFile, logFile := (effective s).logFile, layout := layout,
+                            maxDepth := (effective s).maxDepth, begin_ := bnd.1, end_ := bnd.2, now := now, rc := rcOf s layout },
+                  cmd := cmd }
 
 end Options
 end Hrano
